@@ -109,7 +109,8 @@ def run(tier, seed, workers=None):
         rule='BFS over {evaluate, CI green, queue evaluation, add the hold, '
              'delete the hold comment, merge the dependency, decline} for '
              'each hold (wait; after_pull_request on an open, declined, '
-             'merged, unknown, non-numeric id; two dependencies) on a '
+             'merged, unknown, non-numeric id; two dependencies in both '
+             'orders; dependency 10 while pull request 1 is merged) on a '
              'pull request whose reviews are bypassed and builds green; plus '
              'one pull request per (source, destination) pair of 10 x 10 '
              'names evaluated once; distinct_nontrivial = jobs run while '
